@@ -40,6 +40,9 @@ LADDER = (0.1, 0.05, 0.01, 0.002)
 PHI_NL_MAX = 10.0                            # rad, constraint gamma*P*L <= 10
 K_BOUND = 25.0                               # DESIGN 5/C08 (calibrated: worst observed constant 22 at 10 rad)
 FLOOR = 1e-6                                 # reference accuracy (1e-7 self-convergence) x10
+MONO_MAX = 0.25                              # the ladder must be non-increasing once the error is below 25 %: above that
+                                             # the numerical solution has decorrelated from the true one (saturated error,
+                                             # focusing/MI regime at 10 rad) and "smaller step => smaller error" is not implied
 E_TOL = 3e-4                                 # energy law: alpha/4.343 vs ln(10)/10 is 1.5e-4 at 50 dB
 A_CONST = 3e-4                               # same constant ambiguity seen through amplitude+phase of the field
 FFT_BUDGET = 100_000                         # calls of devices.fft+ifft per FIBER call (DESIGN 5/C08 B)
@@ -290,7 +293,7 @@ def case_fn(case):
                              f'relative L2 error vs reference NLSE solution {e:.3e} > K*phi_max*max(Phi_NL,0.1)+floor = '
                              f'{bound(ph):.3e} (phi_max={ph}, Phi_NL={phi_nl:.3f} rad, split steps={st})'))
         for (p0, e0), (p1, e1) in zip(zip(LADDER, es), list(zip(LADDER, es))[1:]):
-            if e0 is not None and e1 is not None and e1 > 1.05 * e0 + FLOOR:
+            if e0 is not None and e1 is not None and e0 <= MONO_MAX and e1 > 1.05 * e0 + FLOOR:
                 viol.append((f'nlse-monotone:{layout}',
                              f'error grows down the ladder: e({p0})={e0:.3e} -> e({p1})={e1:.3e}'))
         obs.append(('ladder', tuple(None if e is None else float(f'{e:.3e}') for e in es)))
@@ -335,7 +338,7 @@ def run(ctx):
              f'10 coordinates {dict(AXES)} subject to gamma*P*L <= 10 rad, enumerated completely, fewest deviations first; '
              f'grid fs = 160 GHz; per case: FIBER at the case phi_max (oracles 1,2,3 / single-rung 4), the partner layout '
              f'for 1pol/2pol-y0 (oracle 5), and where phi_max is at baseline the ladder {LADDER} against the reference '
-             f'(oracle 4: bound K={K_BOUND:g}, monotone x1.05)')
+             f'(oracle 4: bound K={K_BOUND:g}, monotone x1.05 once the error is <= {MONO_MAX})')
     ctx.assume('numpy.fft is correct; the reference NLSE solver (Strang splitting + Richardson, self-converged to 1e-7) is '
                'trusted after its self-check against DOP853 in the interaction picture and the analytic soliton; '
                'the constant K=25 of the first-order bound is a calibration (DESIGN 5/C08), the statement only says "a constant"')
